@@ -18,3 +18,10 @@ print("| seed | files | change (sub-agent's summary, truncated) | first violated
 print("|---|---|---|---|")
 for r in rows:
     print("| " + " | ".join(r) + " |")
+
+if "--design" in sys.argv:
+    p = os.path.join(V, "DESIGN.md")
+    s = open(p).read()
+    a, b = s.index("<!-- SEED-TABLE-BEGIN -->"), s.index("<!-- SEED-TABLE-END -->")
+    tbl = ["| seed | files | change (sub-agent's summary, truncated) | first violated obligations |", "|---|---|---|---|"] + ["| " + " | ".join(r) + " |" for r in rows]
+    open(p, "w").write(s[:a] + "<!-- SEED-TABLE-BEGIN -->\n" + "\n".join(tbl) + "\n" + s[b:])
